@@ -7,6 +7,13 @@ configuration object (fresh schema call) given a root key file.  Compared with S
 Configurations may also hold secrets inside containers, ListField(SecureField) and DictField(StringField,
 SecureField); the model sees such a container as K extra secrets of the same configuration (see `node`), the
 direct oracle checks the real document (each item a {method, ciphertext} map, no plaintext in the bytes).
+Two configurations A and B of one schema with different root key files may live in one case: Config OBJECTS
+are moved from A into B by every assignment route (attribute / item / dotted assignment of a sub-configuration;
+list assignment, slice assignment, item assignment, append / insert / extend / += with plain lists and with
+A's ListProxy itself, copy(), +); the observation is of B (model: Secrets.v `sop2` / `run_secrets2`, the moved
+sub-tree keeps its own key file, what it inherits changes).  Key-file NAMES may contain `~` (ids 6, 7; HOME is
+private to the check process): the file must be read and created at the expanded location only, and an existing
+key file is compared byte for byte before and after dump and load.
 
 Observed (never ciphertext bytes: os.urandom stays real, the byte layer is C08's):
   * the key file in force at every secret field (KeyFile object actually used: cfg._keyfile.filename);
@@ -25,8 +32,8 @@ from common import g_str, g_bool, g_list, g_opt, Broken
 
 NAME = "secrets"
 IMPORTS = "From Cinco Require Import Base Secrets."
-RUN = "run_secrets"
-CASE_TYPE = "scase"
+RUN = "run_secrets2"
+CASE_TYPE = "scase2"
 
 FORMATS = ["json", "yaml", "xml", "bson", "pickle"]
 METHODS = ["xor", "aes", "best"]
@@ -36,7 +43,8 @@ GM = {"xor": "SXor", "aes": "SAes", "best": "SBest"}
 # audit hook: installed once per process, records opens below the active case directory / of the
 # default key path
 # ---------------------------------------------------------------------------------------------
-_AUDIT = {"installed": False, "dir": None, "default": None, "events": []}
+_AUDIT = {"installed": False, "dir": None, "default": None, "extra": (), "events": []}
+TILDE = {6: "~/verif_k6", 7: "~/verif_k7"}      # key-file NAMES with ~ (HOME is private to the check process)
 
 
 def _hook(ev, args):
@@ -50,7 +58,7 @@ def _hook(ev, args):
             return
     if not isinstance(p, str):
         return
-    if p == _AUDIT["default"] or p.startswith(_AUDIT["dir"] + os.sep):
+    if p == _AUDIT["default"] or p.startswith(_AUDIT["dir"] + os.sep) or p in _AUDIT["extra"] or p.startswith("~"):
         mode = args[1] if len(args) > 1 else None
         flags = args[2] if len(args) > 2 and isinstance(args[2], int) else 0
         writing = (isinstance(mode, str) and any(c in mode for c in "wax+")) or bool(flags & (os.O_WRONLY | os.O_RDWR | os.O_CREAT))
@@ -123,6 +131,18 @@ class Shape:
                         go(c, pos + (("item", name, i),))
         go(self.desc, ())
         return out
+
+    def clear_prefix(self, prefix):
+        for key in list(self.items):
+            if key[0][:len(prefix)] == prefix:
+                del self.items[key]
+
+    def graft(self, src_shape, src_pos, dst_pos):
+        """the configuration at src_pos of src_shape now sits at dst_pos of this shape"""
+        self.clear_prefix(dst_pos)
+        for (p, name), k in list(src_shape.items.items()):
+            if p[:len(src_pos)] == src_pos:
+                self.items[(dst_pos + p[len(src_pos):], name)] = k
 
     def set_items(self, pos, name, k):
         # items below the replaced list disappear
@@ -240,10 +260,188 @@ def generate(rng, tier):
                     elif scen == "preexisting":
                         existing = [0, 1, 2, 3, 4, 5]
                     cases.append(mk_case(desc, existing, ops, root2, fmt, "matrix:" + sname + ":" + scen))
+    # ---- key-file names with ~ : root / nested / class-level, existing (used verbatim) or created
+    for mi, m in enumerate(METHODS):
+        for sname, desc in [("chain2", chain(2, m)), ("list", node([("pw", m)], [("items", "list", node([("tok", m)]))])),
+                            ("ct~", node([("pw", m)], [("ct", "sub", node([("tok", m)], ct=7))]))]:
+            for existing in ([], [6, 7], [6]):
+                for where in ("root", "nested", "both"):
+                    fmt = FORMATS[k % 5]
+                    k += 1
+                    sh = Shape(desc)
+                    ops = []
+                    if where in ("root", "both"):
+                        ops.append(("kf", (), 6))
+                    for pos, n in list(sh.nodes()):
+                        for name, kind, c in n["ch"]:
+                            if kind == "list":
+                                ops.append(("items", pos, name, 2, k % 3))
+                                sh.set_items(pos, name, 2)
+                    ops += fill_ops(det, sh, 1.0)
+                    if where in ("nested", "both"):
+                        ops.append(("kf", sh.nodes()[-1][0], 7))
+                    ops.append(("dump", fmt))
+                    cases.append(mk_case(desc, existing, ops, 6 if where in ("root", "both") else None, fmt,
+                                         "matrix:tilde-%s:%s" % (sname, where)))
+    # ---- two configurations of one schema, Config objects moved from the first into the second
+    for mi, m in enumerate(METHODS):
+        desc = node([("pw", m)], [("sub", "sub", node([("pw", m)], [("in2", "sub", node([("pw", m)]))])),
+                                  ("items", "list", node([("tok", m)], [("deep", "sub", node([("pw", m)]))])),
+                                  ("cts", "list", node([("tok", m)], ct=5))])
+        for route in MOVE_ROUTES:
+            for kb in (1, None):
+                for own in (False, True):
+                    fmt = FORMATS[k % 5]
+                    k += 1
+                    cases.append(two_tree_case(det, desc, "matrix:move:" + route[0] + (":%d" % route[1]), fmt, ka=3, kb=kb,
+                                               routes=[route], own=own))
     nrand = 1200 if tier == "quick" else 12000
-    for _ in range(nrand):
-        cases.append(random_case(rng))
+    for i in range(nrand):
+        if i % 4 == 3:
+            desc = random_desc(rng)
+            cases.append(two_tree_case(rng, desc, "random-move", rng.choice(FORMATS), ka=rng.choice([2, 3, 6]),
+                                       kb=rng.choice([None, 1, 1, 7]), routes=None, own=rng.random() < 0.4))
+        else:
+            cases.append(random_case(rng))
     return cases
+
+
+# (route, style): how a Config OBJECT of the first configuration is put into the second
+# sub:     0 setattr(dst, name, x)   1 dst[name] = x   2 root["a.b.name"] = x
+# replace: 0 dst.name = [x, ..]      1 dst.name[:] = [x, ..]   2 dst.name[:] = a.name   3 dst.name = a.name
+#          4 dst.name = a.name.copy()                       (2-4: the source ListProxy itself; 3, 4 = F54)
+# append:  0 append(x) each   1 extend([x, ..])   2 += [x, ..]   3 insert(len, x) each
+#          4 extend(a.name)   5 += a.name   6 dst.name = dst.name + a.name             (4-6 = F54)
+MOVE_ROUTES = [("sub", 0), ("sub", 1), ("sub", 2), ("sub-deep", 0), ("sub-deep", 2),
+               ("replace", 0), ("replace", 1), ("replace", 2), ("replace", 3), ("replace", 4), ("setitem", 0),
+               ("append", 0), ("append", 1), ("append", 2), ("append", 3), ("append", 4), ("append", 5), ("append", 6)]
+
+
+def schema_path(pos):
+    return tuple(e[1] for e in pos)
+
+
+def two_tree_case(rng, desc, kind, fmt, ka, kb, routes, own):
+    """phase 1: build A (key file ka) and B (key file kb); phase 2: move objects A -> B; phase 3: more on B.
+    A is never used again after the first move (the moved objects are aliased there)."""
+    sha, shb = Shape(desc), Shape(desc)
+    ops = [("A", ("kf", (), ka))]
+    if kb is not None:
+        ops.append(("kf", (), kb))
+    # lists: outermost first, so nested ones exist
+    for sh, tag, lo in ((sha, True, 1), (shb, False, 0)):
+        done = set()
+        while True:
+            todo = [(p, name) for p, n in sh.nodes() for name, kd, c in n["ch"] if kd == "list" and (p, name) not in done]
+            if not todo:
+                break
+            for p, name in todo:
+                cnt = rng.randint(lo, 2)
+                op = ("items", p, name, cnt, rng.randrange(3))
+                ops.append(("A", op) if tag else op)
+                sh.set_items(p, name, cnt)
+                done.add((p, name))
+    ops += [("A", o) for o in fill_ops(rng, sha, 1.0)]
+    ops += fill_ops(rng, shb, 0.5)
+    if own:
+        # a moved configuration keeps the key file it names itself
+        cands = [p for p, n in sha.nodes() if p]
+        if cands:
+            ops.append(("A", ("kf", rng.choice(cands), rng.choice([1, 2]))))
+    if rng.random() < 0.4:
+        ops.append(("A", ("dump", rng.choice(FORMATS))))
+    if rng.random() < 0.3:
+        ops.append(("dump", rng.choice(FORMATS)))
+    used = []
+
+    def free(p):
+        return not any(p[:len(u)] == u or u[:len(p)] == p for u in used)
+
+    nmoves = len(routes) if routes else rng.randint(1, 3)
+    for mi in range(nmoves):
+        route, style = routes[mi] if routes else rng.choice(MOVE_ROUTES)
+        a_nodes = sha.nodes()
+        b_nodes = shb.nodes()
+        if route in ("sub", "sub-deep"):
+            srcs = [p for p, n in a_nodes if p and p[-1][0] == "sub" and free(p)]
+            if route == "sub-deep":
+                srcs = [p for p in srcs if len(p) >= 2] or srcs
+            else:
+                srcs = [p for p in srcs if len(p) == 1] or srcs
+            rng.shuffle(srcs)
+            for src in srcs:
+                dsts = [p for p, n in b_nodes if schema_path(p) == schema_path(src[:-1])]
+                if dsts:
+                    dst = rng.choice(dsts)
+                    if style == 2 and not all(e[0] == "sub" for e in dst):
+                        style = rng.choice([0, 1])
+                    ops.append(("move", dst, "sub", src[-1][1], None, [src], style, None))
+                    shb.graft(sha, src, dst + (("sub", src[-1][1]),))
+                    used.append(src)
+                    break
+        else:
+            lists = [(p, name) for p, n in a_nodes for name, kd, c in n["ch"]
+                     if kd == "list" and sha.items.get((p, name), 0) > 0 and free(p)
+                     and all(free(p + (("item", name, i),)) for i in range(sha.items[(p, name)]))]
+            rng.shuffle(lists)
+            for pa, name in lists:
+                dsts = [p for p, n in b_nodes if schema_path(p) == schema_path(pa) and (p, name) in shb.items]
+                if not dsts:
+                    continue
+                dst = rng.choice(dsts)
+                na, nb = sha.items[(pa, name)], shb.items[(dst, name)]
+                allsrc = [pa + (("item", name, i),) for i in range(na)]
+                whole = None
+                if route == "replace":
+                    if style >= 2:
+                        srcs, whole = allsrc, (pa, name)          # the ListProxy itself is handed over
+                    else:
+                        srcs = allsrc[:rng.randint(1, na)]
+                    for i in range(nb):
+                        shb.clear_prefix(dst + (("item", name, i),))
+                    shb.items[(dst, name)] = len(srcs)
+                    for i, sp in enumerate(srcs):
+                        shb.graft(sha, sp, dst + (("item", name, i),))
+                    ops.append(("move", dst, "replace", name, None, srcs, style, whole))
+                elif route == "setitem":
+                    if nb == 0:
+                        continue
+                    i = rng.randrange(nb)
+                    srcs = [rng.choice(allsrc)]
+                    shb.graft(sha, srcs[0], dst + (("item", name, i),))
+                    ops.append(("move", dst, "setitem", name, i, srcs, 0, None))
+                else:
+                    srcs = allsrc[:rng.randint(1, na)]
+                    if style >= 4:
+                        srcs, whole = allsrc, (pa, name)          # the ListProxy itself is handed over
+                    for i, sp in enumerate(srcs):
+                        shb.graft(sha, sp, dst + (("item", name, nb + i),))
+                    shb.items[(dst, name)] = nb + len(srcs)
+                    ops.append(("move", dst, "append", name, None, srcs, style, whole))
+                used.extend(srcs)
+                break
+    # phase 3: the second configuration lives on
+    cur_root = kb
+    b_nodes = shb.nodes()
+    for _ in range(rng.randint(0, 3)):
+        r = rng.random()
+        p, n = rng.choice(b_nodes)
+        if r < 0.6:
+            name, _m = rng.choice(n["secs"])
+            ops.append(("sec", p, name, plaintext(rng)))
+        elif r < 0.75:
+            ops.append(("kf", p, rng.choice([None, 1, 2])))
+            if p == ():
+                cur_root = ops[-1][2]
+        elif r < 0.9:
+            ops.append(("dump", rng.choice(FORMATS)))
+        else:
+            ops.append(("kf", (), rng.choice([1, 2, 7])))
+            cur_root = ops[-1][2]
+    existing = [i for i in range(8) if rng.random() < 0.3]
+    c = mk_case(desc, existing, ops, cur_root, fmt, kind)
+    c["two"] = True
+    return c
 
 
 def random_desc(rng, depth=0, in_list=False):
@@ -280,7 +478,7 @@ def random_case(rng):
     desc = random_desc(rng)
     sh = Shape(desc)
     ops = []
-    rootkf = rng.choice([None, 1, 1])
+    rootkf = rng.choice([None, 1, 1, 6])
     if rootkf is not None:
         ops.append(("kf", (), rootkf))
     cur_root = rootkf
@@ -310,7 +508,7 @@ def random_case(rng):
             ops.append(("sec", p, name, rng.choice([plaintext(rng)] * 6 + ["", None])))
         elif r < 0.65 + assign_p:
             p, n = rng.choice(nodes)
-            ops.append(("kf", p, rng.choice([None, 1, 2, 3])))
+            ops.append(("kf", p, rng.choice([None, 1, 2, 3, 7])))
             if p == ():
                 cur_root = ops[-1][2]
         elif r < 0.85 + assign_p:
@@ -331,7 +529,7 @@ def random_case(rng):
         if rng.random() < 0.6:
             ops.append(("kf", (), rng.choice([None, 1, 2])))
             cur_root = ops[-1][2]
-    existing = [i for i in range(6) if rng.random() < 0.3]
+    existing = [i for i in range(8) if rng.random() < 0.3]
     root2 = cur_root if rng.random() < 0.93 else rng.choice([None, 1, 2])
     return mk_case(desc, existing, ops, root2, rng.choice(FORMATS), "random")
 
@@ -354,9 +552,27 @@ def g_pos(pos):
     return g_list(pos, lambda e: "StSub %s" % g_str(e[1]) if e[0] == "sub" else "StItem %s %d%%nat" % (g_str(e[1]), e[2]))
 
 
+GROUTE = {"sub": "MSub %s", "replace": "MReplace %s", "setitem": "MSetItem %s %d%%nat", "append": "MAppend %s"}
+
+
 def g_ops(ops):
     out = []
     for op in ops:
+        tag = "OnB"
+        if op[0] == "A":
+            tag, op = "OnA", op[1]
+        if op[0] == "move":
+            r = GROUTE[op[2]] % ((g_str(op[3]), op[4]) if op[2] == "setitem" else (g_str(op[3]),))
+            out.append("OMove %s (%s) %s" % (g_pos(op[1]), r, g_list(op[5], g_pos)))
+            continue
+        for g in g_ops1(op):
+            out.append("%s (%s)" % (tag, g))
+    return "[%s]" % ";".join(out)
+
+
+def g_ops1(op):
+    out = []
+    if True:
         if op[0] == "seclist":
             vals = list(op[3]) + [None] * (K - len(op[3]))
             out += [g_op(("sec", op[1], sl, v)) for sl, v in zip(slots(op[2], "slist"), vals)]
@@ -365,7 +581,7 @@ def g_ops(ops):
             out += [g_op(("sec", op[1], sl, d.get(k))) for sl, k in zip(slots(op[2], "sdict"), DKEYS)]
         else:
             out.append(g_op(op))
-    return "[%s]" % ";".join(out)
+    return out
 
 
 def g_op(op):
@@ -514,6 +730,78 @@ def _values(cfg, n):
     return out
 
 
+def _exec(root, root_a, op, paths, tbl):
+    """one operation of the history on the configuration `root`"""
+    if op[0] == "kf":
+        tgt = _resolve(root, op[1])
+        tgt._key_filename = (paths[op[2]] if op[2] is not None else None)
+        tbl[id(tgt)] = (tgt, paths[op[2]] if op[2] is not None else None)
+    elif op[0] == "sec":
+        setattr(_resolve(root, op[1]), op[2], op[3])
+    elif op[0] == "seclist":
+        setattr(_resolve(root, op[1]), op[2], list(op[3]))
+    elif op[0] == "secdict":
+        setattr(_resolve(root, op[1]), op[2], dict(op[3]))
+    elif op[0] == "items":
+        cfg = _resolve(root, op[1])
+        field = _item_field(cfg, op[2])
+        if op[4] == 0:
+            setattr(cfg, op[2], [{} for _ in range(op[3])])
+        elif op[4] == 1:
+            setattr(cfg, op[2], [field() for _ in range(op[3])])
+        else:
+            setattr(cfg, op[2], [])
+            for _ in range(op[3]):
+                cfg._data[op[2]].append(field() if _ % 2 else {})
+    elif op[0] == "dump":
+        root.dumps(op[1])
+    elif op[0] == "move":
+        _, dstpos, route, name, idx, srcs, style, whole = op
+        dst = _resolve(root, dstpos)
+        objs = [_resolve(root_a, sp) for sp in srcs]
+        proxy = _resolve(root_a, whole[0])._data[whole[1]] if whole else None
+        if route == "sub":
+            if style == 0:
+                setattr(dst, name, objs[0])
+            elif style == 1:
+                dst[name] = objs[0]
+            else:
+                root[".".join([e[1] for e in dstpos] + [name])] = objs[0]
+        elif route == "replace":
+            if style == 0:
+                setattr(dst, name, list(objs))
+            elif style == 1:
+                dst._data[name][:] = list(objs)
+            elif style == 2:
+                dst._data[name][:] = proxy
+            elif style == 3:
+                setattr(dst, name, proxy)
+            else:
+                setattr(dst, name, proxy.copy())
+        elif route == "setitem":
+            dst._data[name][idx] = objs[0]
+        elif route == "append":
+            lst = dst._data[name]
+            if style == 0:
+                for o in objs:
+                    lst.append(o)
+            elif style == 1:
+                lst.extend(list(objs))
+            elif style == 2:
+                lst += list(objs)
+            elif style == 3:
+                for o in objs:
+                    lst.insert(len(lst), o)
+            elif style == 4:
+                lst.extend(proxy)
+            elif style == 5:
+                lst += proxy
+            else:
+                setattr(dst, name, lst + proxy)
+    else:
+        raise Broken("bad op %r" % (op,))
+
+
 def _effects(events, exists):
     exists = set(exists)
     read, created = set(), set()
@@ -532,50 +820,43 @@ def impl(c):
     _install()
     default = Config.DEFAULT_CINCOKEY_FILEPATH
     d = tempfile.mkdtemp(prefix="verif_sec_")
-    paths = {0: default}
-    for i in range(1, 8):
+    paths = {0: default}           # the NAME given to cincoconfig
+    for i in range(1, 6):
         paths[i] = os.path.join(d, "k%d" % i)
+    paths.update(TILDE)
+    real = {i: os.path.expanduser(p) for i, p in paths.items()}     # where the file must be
     ids = {p: i for i, p in paths.items()}
+    ids.update({p: i for i, p in real.items()})
     st = {}
     c["_o"] = st
     try:
         if os.path.exists(default):
             os.unlink(default)
+        for i in TILDE:
+            if os.path.exists(real[i]):
+                os.unlink(real[i])
         for i in c["existing"]:
-            with open(paths[i], "wb") as fp:
+            with open(real[i], "wb") as fp:
                 fp.write(os.urandom(32))
         _AUDIT["dir"], _AUDIT["default"], _AUDIT["events"] = d, default, []
+        _AUDIT["extra"] = tuple(real[i] for i in TILDE)
         try:
             schema = _build_schema(c["desc"], paths, [0])
             root = schema()
+            root_a = schema() if c.get("two") else None
             tbl = {}
             for op in c["ops"]:
-                if op[0] == "kf":
-                    tgt = _resolve(root, op[1])
-                    tgt._key_filename = (paths[op[2]] if op[2] is not None else None)
-                    tbl[id(tgt)] = (tgt, paths[op[2]] if op[2] is not None else None)
-                elif op[0] == "sec":
-                    setattr(_resolve(root, op[1]), op[2], op[3])
-                elif op[0] == "seclist":
-                    setattr(_resolve(root, op[1]), op[2], list(op[3]))
-                elif op[0] == "secdict":
-                    setattr(_resolve(root, op[1]), op[2], dict(op[3]))
-                elif op[0] == "items":
-                    cfg = _resolve(root, op[1])
-                    field = _item_field(cfg, op[2])
-                    if op[4] == 0:
-                        setattr(cfg, op[2], [{} for _ in range(op[3])])
-                    elif op[4] == 1:
-                        setattr(cfg, op[2], [field() for _ in range(op[3])])
-                    else:
-                        setattr(cfg, op[2], [])
-                        for _ in range(op[3]):
-                            cfg._data[op[2]].append(field() if _ % 2 else {})
-                elif op[0] == "dump":
-                    root.dumps(op[1])
+                root_b = root
+                if op[0] == "A":
+                    root, op = root_a, op[1]
+                try:
+                    _exec(root, root_a, op, paths, tbl)
+                finally:
+                    root = root_b
             # ---- final dump, audited
             nodes = list(_walk(root, c["desc"]))
-            before = [p for p in paths.values() if os.path.exists(p)]
+            before = [p for p in real.values() if os.path.exists(p)]
+            content = {p: open(p, "rb").read() for p in before}
             _AUDIT["events"] = []
             out = root.dumps(c["fmt"])
             ev_dump = list(_AUDIT["events"])
@@ -602,7 +883,7 @@ def impl(c):
             for (cfg, n, chain), (used, named, want, _) in zip(nodes, st["resolution"]):
                 for v in _values(cfg, n):
                     if v:
-                        st["expected_dump"].add(want)
+                        st["expected_dump"].add(os.path.expanduser(want))
                         st["plaintexts"].append(v)
             st["touched_dump"] = {p for p, _ in ev_dump}
             st["leaks"] = [v for v in st["plaintexts"] if v.encode() in out]
@@ -631,7 +912,8 @@ def impl(c):
             collect(shape)
             want_plain = _plain(root, c["desc"])
             # ---- new session: new objects, same file system
-            before2 = [p for p in paths.values() if os.path.exists(p)]
+            before2 = [p for p in real.values() if os.path.exists(p)]
+            content.update({p: open(p, "rb").read() for p in before2 if p not in content})
             root2 = schema(key_filename=paths[c["root2"]]) if c["root2"] is not None else schema()
             tbl2 = {id(root2): (root2, paths[c["root2"]] if c["root2"] is not None else None)}
             _AUDIT["events"] = []
@@ -644,10 +926,10 @@ def impl(c):
             ev_load = list(_AUDIT["events"])
             st["touched_load"] = {p for p, _ in ev_load}
             # what a fresh configuration can name: the new root key file and the class-level key files
-            allowed = {paths[c["root2"]] if c["root2"] is not None else default}
+            allowed = {real[c["root2"]] if c["root2"] is not None else default}
             for _p, n in _all_desc(c["desc"]):
                 if n["ct"] is not None:
-                    allowed.add(paths[n["ct"]])
+                    allowed.add(real[n["ct"]])
             st["allowed_load"] = allowed
             if loaded:
                 got_plain = _plain(root2, c["desc"])
@@ -659,7 +941,7 @@ def impl(c):
                             want = _own(a, tbl2)
                             break
                     if any(_values(cfg, n)):
-                        st["expected_load"].add(want)
+                        st["expected_load"].add(os.path.expanduser(want))
                 if got_plain == want_plain:
                     r2, c2 = _effects(ev_load, before2)
                     rt = ("same", (sorted(ids.get(p, -1) for p in r2), sorted(ids.get(p, -1) for p in c2)))
@@ -668,6 +950,8 @@ def impl(c):
             else:
                 rt = "broken"
             st["rt"] = rt
+            st["rewritten"] = sorted(os.path.basename(p) for p, b in content.items()
+                                     if not os.path.exists(p) or open(p, "rb").read() != b)
             return (kfs, (sorted(ids.get(p, -1) for p in read), sorted(ids.get(p, -1) for p in created)), f34, shape, rt)
         except Exception as e:  # noqa
             st["exc"] = "%s: %s" % (type(e).__name__, e)
@@ -675,6 +959,11 @@ def impl(c):
     finally:
         _AUDIT["dir"] = None
         shutil.rmtree(d, ignore_errors=True)
+        for i in TILDE:
+            try:
+                os.unlink(os.path.expanduser(TILDE[i]))
+            except OSError:
+                pass
         try:
             os.unlink(default)
         except OSError:
@@ -695,7 +984,8 @@ def oracle(c, obs):
     bad = []
     if "exc" in st:
         return ["an operation of the history raised: %s" % st["exc"]]
-    base = os.path.basename
+    def base(p):
+        return p if p.startswith("~") else os.path.basename(p)     # an unexpanded ~ name that reached open() is shown as such
     for used, named, want, parent_ok in st["resolution"]:
         if used != want or named != want:
             bad.append("key-file resolution: a configuration uses %s / reports %s, nearest ancestor names %s" % (base(used), base(named), base(want)))
@@ -705,6 +995,8 @@ def oracle(c, obs):
     if st["touched_dump"] != st["expected_dump"]:
         bad.append("key files touched by the dump %s differ from the key files of the non-empty secrets %s" % (
             sorted(map(base, st["touched_dump"])), sorted(map(base, st["expected_dump"]))))
+    if st.get("rewritten"):
+        bad.append("an existing key file was rewritten / removed by dump or load: %s" % st["rewritten"])
     if st["leaks"]:
         bad.append("plaintext of a secret present in the serialised output")
     if any(m not in ("aes", "xor") for m in st["methods"]):
@@ -751,6 +1043,12 @@ def tags(c, obs):
                 t.add("secret-container-in-item")
             elif p:
                 t.add("secret-container-nested")
+    for op in c["ops"]:
+        if op[0] == "move":
+            t.add("move:%s:%d" % (op[2], op[6]))
+    if any((op[1] if op[0] == "A" else op)[0] == "kf" and (op[1] if op[0] == "A" else op)[2] in TILDE for op in c["ops"]) or \
+            any(n["ct"] in TILDE for _, n in descs):
+        t.add("tilde-keyfile")
     seen_dump = False
     for op in c["ops"]:
         if op[0] == "dump":
